@@ -6,6 +6,7 @@ import an
 import names as N
 import rules_create as RC
 import rules_geno as RG
+import iters as IT
 
 SP = "sfs_core::spectrum::Spectrum::<S>::"
 SCS = "sfs_core::spectrum::Spectrum::<sfs_core::spectrum::Counts>::"
@@ -164,11 +165,23 @@ def c03a(chk):
         chk.ob("C03.a", "Projection::from_shapes/both-shapes-nonzero-then-new(from,to)", ok, g.loc(), "Projection::new(from, to) is reached only when both shapes convert to counts; otherwise ProjectionError::Zero")
     h = chk.fn(COUNT + "::try_from_shape")
     if h is not None:
-        cs = [t for b, t in h.calls() if (t["callee"].get("path") or "") == "core::num::<impl usize>::checked_sub"]
-        ok = len(cs) == 1 and const_val(cs[0]["args"][1]) == 1 and an.try_branch_of(h, [b for b, t in h.calls() if t is cs[0]][0]) is not None
+        cs = [(b, t) for b, t in h.calls() if (t["callee"].get("path") or "") == "core::num::<impl usize>::checked_sub"]
+        ok = False
+        why = "one checked_sub(1) whose None outcome is told apart was not found"
+        if len(cs) == 1 and const_val(cs[0][1]["args"][1]) == 1:
+            oc = an.option_outcomes(h, cs[0][0])
+            if oc is not None:
+                sb, some_t, none_t = oc
+                after_none = h.reachable_from(none_t)
+                # on the None outcome the function returns without building Some(..): no Some aggregate of the return type is reachable
+                some_aggs = [b for b, i, p, rv, s_ in h.assigns() if rv["k"] == "aggregate" and rv.get("variant") == "Some" and p[0] == 0]
+                none_ret = [b for b, i, p, rv, s_ in h.assigns() if p[0] == 0 and rv["k"] == "aggregate" and rv.get("variant") == "None"] + \
+                           [b for b, t in h.calls() if callee_is(t["callee"], "core::ops::try_trait::FromResidual::from_residual") and an.call_dest_local(t) == 0]
+                ok = bool(some_aggs) and not any(b in after_none for b in some_aggs) and any(b in after_none for b in none_ret)
+                why = "None outcome of checked_sub(1) returns None and never reaches Some(..): %s" % ok
         upd = an.each_element_update(chk.prog, h)
         whole = upd is not None and upd["kind"] == "loop" and [a for a in upd["adaptors"] if a not in ("into_iter", "deref_mut")] == ["iter_mut"]
-        chk.ob("C03.a", "Count::try_from_shape/zero-axis->None", ok and whole, h.loc(), "every axis length n becomes n.checked_sub(1)?: a zero-length axis rejects the shape (per element over the whole vector=%s)" % whole)
+        chk.ob("C03.a", "Count::try_from_shape/zero-axis->None", ok and whole, h.loc(), "every axis length n becomes n.checked_sub(1), a zero-length axis rejects the shape (%s; per element over the whole vector=%s)" % (why, whole))
 
 
 def c03b(chk):
@@ -344,8 +357,8 @@ def c04a(chk):
     if f is None:
         return
     mu = an.calls(f, MARG_U)
-    if len(mu) != 2:
-        chk.fail("C04.a", "marginalize/two-unchecked-calls", f.loc(), "expected the sorted and the unsorted call of marginalize_unchecked, found %d" % len(mu))
+    if not mu:
+        chk.fail("C04.a", "marginalize/unchecked-calls", f.loc(), "no call of marginalize_unchecked found")
         return
     errs = {}
     for b, i, p, rv, s in f.assigns():
@@ -401,31 +414,82 @@ def c04a(chk):
                 if len(ds) == 2 and ds[0] and ds[1] and ds[0][0] == "call" and ds[1][0] == "call" and callee_name(ds[0][2]["callee"]).endswith("::len") and callee_is(ds[1][2]["callee"], SP + "dimensions"):
                     too = "TooManyAxes" in errs and an.dominated_by_edge(f, sb, st["otherwise"], errs["TooManyAxes"])
     chk.ob("C04.a", "marginalize/too-many-test=len>=dimensions", too, f.loc(), "removing every axis (axes.len() >= dimensions()) is an error")
-    # sortedness: windows(2).all(w[0] <= w[1]); unsorted -> to_vec + sort
-    wn = [(b, t) for b, t in f.calls() if callee_is(t["callee"], "core::slice::<impl [T]>::windows")]
-    al = [(b, t) for b, t in f.calls() if callee_is(t["callee"], "core::iter::traits::iterator::Iterator::all")]
-    st_ok = len(wn) == 1 and const_val(wn[0][1]["args"][1]) == 2 and len(al) == 1 and sorted_ok
-    srt = [(b, t) for b, t in f.calls() if callee_is(t["callee"], "alloc::slice::<impl [T]>::sort", "alloc::slice::<impl [T]>::sort_unstable")]
-    tv = [(b, t) for b, t in f.calls() if callee_is(t["callee"], "alloc::slice::<impl [T]>::to_vec")]
-    route_ok = False
-    if len(al) == 1 and len(srt) == 1 and len(tv) == 1:
-        for sb, s in an.switches_on_call_result(f, al[0][0]):
+    # sortedness.  Every marginalize_unchecked call receives either a copy on which sort() was called, or the caller's list on an
+    # edge where an adjacent-pair test established ascending order.
+    def window_pos(cl, op):
+        l = op_local(op)
+        tgt = cl.resolve_ptr(l) if l is not None else None
+        if tgt is None or tgt[0] != 2:
+            return None
+        for e in tgt[1]:
+            if e[0] == "index":
+                c = an.const_of(cl, {"k": "copy", "place": {"l": e[1], "p": []}})
+                return c.get("val") if c else None
+            if e[0] == "constindex":
+                return e[1]
+        return None
+
+    def pair_test(cl):
+        """('le'|'lt'|'gt'|'ge') of the comparison window[0] OP window[1] the closure returns, else None"""
+        cmps = [(callee_name(t["callee"]).split("::")[-1], t) for b_, t in cl.calls() if callee_name(t["callee"]).startswith("core::cmp::PartialOrd::")]
+        if len(cmps) != 1 or list(cl.switches()) or an.call_dest_local(cmps[0][1]) != 0:
+            return None
+        op, t = cmps[0]
+        i0, i1 = window_pos(cl, t["args"][0]), window_pos(cl, t["args"][1])
+        if (i0, i1) == (0, 1):
+            return op
+        if (i0, i1) == (1, 0):
+            return {"le": "ge", "lt": "gt", "ge": "le", "gt": "lt"}.get(op)
+        return None
+
+    sorted_edges = []  # (switch block, target) edges on which the caller's list is known to be ascending
+    tests = []
+    for it in IT.iterations(prog, f, include_nested=False):
+        if it.kind != "closure" or it.consumer not in ("all", "any"):
+            continue
+        ch = it.chain()
+        wt = IT.chain_get(ch, "windows")
+        if IT.chain_names(ch) != ["windows"] or wt is None or const_val(wt["args"][1]) != 2 or ch[-1][1] is None or ch[-1][1][0] != 2:
+            continue
+        op = pair_test(it.body)
+        chk.fns_analysed.add(it.body.path)
+        for sb, s_ in an.switches_on_call_result(f, it.bb):
             stt = f.term(sb)
             t_true, t_false = stt["otherwise"], an.edge_target(stt, 0)
-            direct = [mb for mb, mt in mu if an.dominated_by_edge(f, sb, t_true, mb)]
-            viasort = [(mb, mt) for mb, mt in mu if an.dominated_by_edge(f, sb, t_false, mb)]
-            if len(direct) == 1 and len(viasort) == 1:
-                mb, mt = viasort[0]
-                sl, info = f.slice_locals(mt["args"][1])
-                uses_sorted = an.call_dest_local(tv[0][1]) in sl and f.dominates(srt[0][0], mb)
-                dsl, dinfo = f.slice_locals([mt for mb2, mt in mu if mb2 == direct[0]][0]["args"][1])
-                route_ok = uses_sorted and 2 in dsl
+            if it.consumer == "all" and op in ("le", "lt"):
+                sorted_edges.append((sb, t_true))
+                tests.append("windows(2).all(w[0] %s w[1])" % op)
+            if it.consumer == "any" and op in ("gt", "ge"):
+                sorted_edges.append((sb, t_false))
+                tests.append("!windows(2).any(w[0] %s w[1])" % op)
+    for b_, t in f.calls():
+        if callee_is(t["callee"], "core::slice::<impl [T]>::is_sorted"):
+            for sb, s_ in an.switches_on_call_result(f, b_):
+                sorted_edges.append((sb, f.term(sb)["otherwise"]))
+                tests.append("is_sorted()")
+    srt = [(b, t) for b, t in f.calls() if callee_is(t["callee"], "alloc::slice::<impl [T]>::sort", "core::slice::<impl [T]>::sort_unstable", "alloc::slice::<impl [T]>::sort_unstable")]
+    tv = [(b, t) for b, t in f.calls() if callee_is(t["callee"], "alloc::slice::<impl [T]>::to_vec", "alloc::borrow::ToOwned::to_owned")]
+    routes = []
+    for mb, mt in mu:
+        sl, info = f.slice_locals(mt["args"][1])
+        copies = [x for x in tv if an.call_dest_local(x[1]) in sl]
+        if copies:
+            # a sort of that same copy dominates the call
+            cdst = an.call_dest_local(copies[0][1])
+            sorted_first = [sb_ for sb_, st_ in srt if f.dominates(sb_, mb) and cdst in f.slice_locals(st_["args"][0])[0]]
+            routes.append("sorted-copy" if sorted_first else "UNSORTED-COPY")
+        elif 2 in sl:
+            guarded = any(an.dominated_by_edge(f, sb, tgt, mb) for sb, tgt in sorted_edges)
+            routes.append("as-given-under-sortedness-test" if guarded else "AS-GIVEN-WITHOUT-TEST")
+        else:
+            routes.append("UNKNOWN-ARGUMENT")
+    route_ok = bool(routes) and all(r in ("sorted-copy", "as-given-under-sortedness-test") for r in routes) and "sorted-copy" in routes
     # nothing else rearranges the list: the slice/vector methods used in marginalize are the reviewed ones
     slice_calls = sorted({callee_name(t["callee"]).split("::")[-1] for b, t in f.calls() if callee_name(t["callee"]).startswith(("core::slice::", "alloc::slice::", "alloc::vec::Vec::"))})
-    extra_calls = [c for c in slice_calls if c not in ("iter", "len", "windows", "to_vec", "sort", "sort_unstable")]
+    extra_calls = [c for c in slice_calls if c not in ("iter", "len", "windows", "to_vec", "sort", "sort_unstable", "is_sorted", "is_empty", "as_slice", "deref", "get", "contains")]
     route_ok = route_ok and not extra_calls
-    chk.ob("C04.a", "marginalize/sorted-or-sorted-copy", st_ok and route_ok, f.loc(),
-           "sortedness is tested on every adjacent pair (windows(2).all(w[0] <= w[1]))=%s; a sorted list is used as is, an unsorted one is copied and sorted (ascending, nothing applied afterwards; other slice operations: %s) first=%s" % (st_ok, extra_calls, route_ok))
+    chk.ob("C04.a", "marginalize/sorted-or-sorted-copy", route_ok, f.loc(),
+           "every marginalize_unchecked call gets an ascending list: the caller's list only under an adjacent-pair sortedness test (%s), otherwise a copy that was sorted (ascending sort, nothing applied afterwards; other slice operations: %s); routes: %s" % (tests or "none found", extra_calls, routes))
 
 
 def c04c(chk):
@@ -433,42 +497,66 @@ def c04c(chk):
     f = chk.fn(MARG_U)
     if f is None:
         return
-    fe = an.calls(f, N.FOR_EACH)
-    ok = False
-    ad = None
-    if len(fe) == 1:
-        ad, info = adaptors_of(f, fe[0][1]["args"][0], fe[0][0])
-        ok = sorted(ad) == ["enumerate", "iter", "map"] and not list(f.switches())
-    chk.ob("C04.c", "marginalize_unchecked/axes-in-given-order", ok, f.loc(), "the axes are walked as given (iter().enumerate().map(..).for_each(..)), no re-sorting or reversal (adaptors %s)" % ad)
-    c0 = None
-    c1 = None
-    for c in prog.closures_of(MARG_U):
-        chk.fns_analysed.add(c.path)
-        if any(rv["k"] == "aggregate" and rv.get("adt") == "sfs_core::array::shape::Axis" for _, _, _, rv, _ in c.assigns()):
-            c0 = c
-        if an.calls(c, SP + "marginalize_axis"):
-            c1 = c
-    ok = False
-    if c0 is not None:
-        subs = [rv for _, _, _, rv, _ in c0.assigns() if rv["k"] == "binop" and rv["op"].startswith("Sub")]
-        if len(subs) == 1:
-            def fld(op):
-                sl, info = c0.slice_locals(op, through_calls=False)
-                for l in sl:
-                    for d in c0.defs.get(l, []):
-                        if d[0] == "assign" and d[3]["k"] == "use":
-                            p = op_place(d[3]["op"])
-                            if p and p[0] == 2 and p[1] and p[1][0][0] == "field":
-                                return p[1][0][1]
-                return None
-            ok = fld(subs[0]["l"]) == 1 and fld(subs[0]["r"]) == 0 and len([rv for _, _, _, rv, _ in c0.assigns() if rv["k"] == "binop"]) == 1
-    chk.ob("C04.c", "marginalize_unchecked/renumber=original-removed", ok, c0.loc() if c0 else f.loc(), "the k-th axis removed is Axis(original.0 - k) with k the enumerate index")
-    ok = False
-    if c1 is not None:
-        ma = an.calls(c1, SP + "marginalize_axis")
-        st = [p for b, i, p, rv, s in c1.assigns() if p[1] == (("deref",),) and rv["k"] == "use" and op_local(rv["op"]) == an.call_dest_local(ma[0][1])]
-        ok = len(ma) == 1 and len(st) == 1 and not list(c1.switches())
-    chk.ob("C04.c", "marginalize_unchecked/one-marginalize_axis-per-axis", ok, c1.loc() if c1 else f.loc(), "spectrum = spectrum.marginalize_axis(axis) for every axis, unconditionally")
+    its = IT.iterations(prog, f)
+    unit = [f] + prog.closures_of(f.path)
+    ms = [(g, b, t) for g in unit for b, t in an.calls(g, SP + "marginalize_axis")]
+    order_ok = renum_ok = once_ok = False
+    why_o = why_r = why_m = "marginalize_axis call / iteration over the axes not recognised"
+    where = f.loc()
+    if len(ms) == 1:
+        g, mb, mt = ms[0]
+        chk.fns_analysed.add(g.path)
+        inside = [it for it in its if it.body is g and mb in it.blocks]
+        itM = min(inside, key=lambda it: len(it.blocks)) if inside else None
+        if itM is not None:
+            where = itM.loc()
+            a = mt["args"][1]
+            itA = None
+            agg = None
+            ch = itM.chain()
+            if itM.elem_path(a) == () and IT.chain_get(ch, "map") is not None:
+                mterm = IT.chain_get(ch, "map")
+                for it in its:
+                    if it.kind == "closure" and it.consumer == "map" and it.term is mterm:
+                        itA = it
+                        r0 = it.body.defs.get(0, [])
+                        agg = r0[0] if len(r0) == 1 else None
+            else:
+                l = op_local(a)
+                agg = g.single_def(g.copy_root(l)) if l is not None else None
+                itA = itM
+            if itA is not None and agg and agg[0] == "assign" and agg[3]["k"] == "aggregate" and agg[3].get("adt") == "sfs_core::array::shape::Axis":
+                chk.fns_analysed.add(itA.body.path)
+                bo = an.binop_def(itA.body, agg[3]["ops"][0])
+                binops = [rv for _, _, _, rv, _ in itA.assigns() if rv["k"] == "binop" and not rv["op"] in ("Lt", "Le", "Gt", "Ge", "Eq", "Ne")]
+                if bo is not None and bo["op"].startswith("Sub"):
+                    lp, rp = itA.elem_path(bo["l"]), itA.elem_path(bo["r"])
+                    renum_ok = lp == (1, 0) and rp == (0,) and len(binops) == 1
+                    why_r = "Axis(%s - %s) with element parts (original.0 = %s, enumerate index = %s), %d arithmetic operation(s) in the body" % ("l", "r", lp, rp, len(binops))
+                # the enumerate chain over the caller's list, nothing re-ordering
+                names = [n for n in IT.chain_names(itA.chain())]
+                src = itA.chain()[-1][1]
+                order_ok = sorted(names) == ["enumerate", "iter"] and src is not None and src[0] == 2
+                if itA is not itM:
+                    order_ok = order_ok and sorted(IT.chain_names(itM.chain())) == ["enumerate", "iter", "map"]
+                why_o = "adaptors %s over parameter `axes`=%s" % (IT.chain_names(itM.chain()), src is not None and src[0] == 2)
+            # spectrum = spectrum.marginalize_axis(axis), for every element, unconditionally
+            recv = itM.outer_place(mt["args"][0])
+            dest = an.call_dest_local(mt)
+            stores = [itM.outer_place(p_) for b_, i_, p_, rv, s_ in itM.assigns() if rv["k"] == "use" and op_local(rv["op"]) is not None and g.copy_root(op_local(rv["op"])) == dest and (p_[1] or itM.kind == "loop")]
+            stores = [x for x in stores if x is not None]
+            cl = an.calls(f, "core::clone::Clone::clone")
+            spec = an.call_dest_local(cl[0][1]) if len(cl) == 1 else None
+            r0 = f.defs.get(0, [])
+            ret = len(r0) == 1 and r0[0][0] == "assign" and r0[0][3]["k"] == "use" and op_local(r0[0][3]["op"]) is not None and f.copy_root(op_local(r0[0][3]["op"])) == spec
+            def is_spec(pl):
+                return pl is not None and pl[0] == spec and not [e for e in pl[1] if e[0] != "deref"]
+            uncond = itM.runs_for_every_element() and not itM.switches() and (itA is None or itA is itM or not itA.switches())
+            once_ok = spec is not None and is_spec(recv) and any(is_spec(x) for x in stores) and ret and uncond and not [sw for sw in f.switches() if sw[0] != itM.switch_bb and sw[0] not in itM.blocks]
+            why_m = "receiver is the running copy=%s, result stored back=%s, the copy is returned=%s, unconditional for every axis=%s" % (is_spec(recv), any(is_spec(x) for x in stores), ret, uncond)
+    chk.ob("C04.c", "marginalize_unchecked/axes-in-given-order", order_ok, where, "the axes are walked as given, no re-sorting or reversal (%s)" % why_o)
+    chk.ob("C04.c", "marginalize_unchecked/renumber=original-removed", renum_ok, where, "the k-th axis removed is Axis(original.0 - k) with k the enumerate index (%s)" % why_r)
+    chk.ob("C04.c", "marginalize_unchecked/one-marginalize_axis-per-axis", once_ok, where, "spectrum = spectrum.marginalize_axis(axis) for every axis, unconditionally (%s)" % why_m)
     g = chk.fn(SP + "marginalize_axis")
     if g is not None:
         sm = an.calls(g, A + "Array::<f64>::sum")
@@ -483,44 +571,68 @@ def c04d(chk):
         return
     ra = an.calls(f, A + "shape::Shape::remove_axis")
     ish = an.calls(f, A + "shape::removed_axis::RemovedAxis::<'a, sfs_core::array::shape::Shape>::into_shape")
-    ia = an.calls(f, A + "Array::<T>::iter_axis")
     fz = an.calls(f, A + "Array::<f64>::from_zeros")
-    fo = an.calls(f, N.FOLD)
-    ok = all(len(x) == 1 for x in (ra, ish, ia, fz, fo)) and not list(f.switches())
-    same_axis = ok and all(op_local(t["args"][1]) is not None and f.copy_root(op_local(t["args"][1])) == 2 for t in (ra[0][1], ia[0][1]))
-    init_ok = ok and op_local(fo[0][1]["args"][1]) is not None and f.copy_root(op_local(fo[0][1]["args"][1])) == an.call_dest_local(fz[0][1]) and \
-        op_local(fz[0][1]["args"][0]) is not None and f.copy_root(op_local(fz[0][1]["args"][0])) == an.call_dest_local(ish[0][1])
-    recv_ok = ok and op_local(fo[0][1]["args"][0]) is not None and f.copy_root(op_local(fo[0][1]["args"][0])) == an.call_dest_local(ia[0][1])
-    chk.ob("C04.d", "Array::sum/fold(iter_axis(axis), zeros(remaining shape))", ok and same_axis and init_ok and recv_ok, f.loc(),
-           "every view of the summed axis is folded into a zero array shaped like the remaining axes (same axis=%s, init=%s, receiver=%s)" % (same_axis, init_ok, recv_ok))
-    cl = closure_of_arg(prog, f, fo[0][1], 2) if len(fo) == 1 else None
+    its = IT.iterations(prog, f)
+    outer = [it for it in its if it.parent is f and IT.chain_names(it.chain()) == ["iter_axis"]]
+    ok = all(len(x) == 1 for x in (ra, ish, fz, outer))
+    same_axis = init_ok = recv_ok = every = ret_ok = False
+    o = outer[0] if len(outer) == 1 else None
+    acc_local = None
+    if ok:
+        ia = IT.chain_get(o.chain(), "iter_axis")
+        same_axis = all(op_local(t["args"][1]) is not None and f.copy_root(op_local(t["args"][1])) == 2 for t in (ra[0][1], ia))
+        recv_ok = o.chain()[-1][1] == (1, (("deref",),))
+        zeros = an.call_dest_local(fz[0][1])
+        shaped = op_local(fz[0][1]["args"][0]) is not None and f.copy_root(op_local(fz[0][1]["args"][0])) == an.call_dest_local(ish[0][1])
+        r0 = [d for d in f.defs.get(0, [])]
+        if o.kind == "closure":
+            init = o.term["args"][1] if o.consumer == "fold" else None
+            init_ok = shaped and init is not None and op_local(init) is not None and f.copy_root(op_local(init)) == zeros
+            ret_ok = an.call_dest_local(o.term) == 0 or (len(r0) == 1 and r0[0][0] == "assign" and r0[0][3]["k"] == "use" and op_local(r0[0][3]["op"]) is not None and f.copy_root(op_local(r0[0][3]["op"])) == an.call_dest_local(o.term))
+            ret_ok = ret_ok and any(p_[0] == 0 and rv["k"] == "use" and o.acc_path(rv["op"]) == () for b_, i_, p_, rv, s_ in o.body.assigns())
+            acc_local = ("acc",)
+        else:
+            init_ok = shaped and f.dominates(fz[0][0], o.bb)
+            ret_ok = len(r0) == 1 and r0[0][0] == "assign" and r0[0][3]["k"] == "use" and op_local(r0[0][3]["op"]) is not None and f.copy_root(op_local(r0[0][3]["op"])) == zeros
+            acc_local = zeros
+        every = o.runs_for_every_element() and not [sw for sw in f.switches() if sw[0] != o.switch_bb and sw[0] not in o.blocks]
+    chk.ob("C04.d", "Array::sum/fold(iter_axis(axis), zeros(remaining shape))", ok and same_axis and init_ok and recv_ok and every and ret_ok, f.loc(),
+           "every view of the summed axis (%s) is accumulated into a zero array shaped like the remaining axes, which is then returned (same axis=%s, init=%s, receiver=%s, every view=%s, returned=%s)"
+           % (o.describe() if o else "iteration over iter_axis not found", same_axis, init_ok, recv_ok, every, ret_ok))
     ok = False
-    if cl is not None:
-        chk.fns_analysed.add(cl.path)
-        upd = an.each_element_update(prog, cl)
-        if upd is not None and upd["kind"] == "for_each":
-            ad = sorted(upd["adaptors"])
-            c2 = upd["closure"]
+    inner = None
+    why = "element-wise update not found"
+    if o is not None:
+        for it in its:
+            if it is o:
+                continue
+            # the inner iteration lives in the outer body
+            if not ((o.kind == "closure" and it.parent is o.body) or (o.kind == "loop" and it.parent is f and it.bb in o.blocks)):
+                continue
+            ch = it.chain()
+            if IT.chain_names(ch) != ["zip", "iter_mut"]:
+                continue
+            inner = it
+            chk.fns_analysed.add(it.body.path)
+            src = ch[-1][1]
+            zside = [x for x in ch if x[0] == "zip"][0][2]
+            if o.kind == "closure":
+                acc_src = src is not None and o.acc_path(src) == ()
+            else:
+                acc_src = src is not None and src == (acc_local, ())
+            view_src = len(zside) == 1 and IT.chain_names(zside[0]) == ["iter"] and zside[0][-1][1] is not None and o.elem_path(zside[0][-1][1]) == ()
             add_ok = False
-            if c2 is not None:
-                for b2, i2, p2, rv2, s2 in c2.assigns():
-                    if p2[1] == (("deref",),) and rv2["k"] == "binop" and rv2["op"] == "Add" and op_place(rv2["l"]) == p2:
-                        add_ok = True
-                aa = [t for b2, t in c2.calls() if callee_is(t["callee"], N.ADD_ASSIGN)]
-                if len(aa) == 1 and len(list(c2.calls())) == 1:
-                    def tf(op):
-                        sl, info = c2.slice_locals(op, through_calls=False)
-                        for l in sl:
-                            for d in c2.defs.get(l, []):
-                                if d[0] == "assign" and d[3]["k"] == "use":
-                                    p = op_place(d[3]["op"])
-                                    if p and p[0] == 2 and p[1] and p[1][0][0] == "field":
-                                        return p[1][0][1]
-                        return None
-                    add_ok = tf(aa[0]["args"][0]) == 0 and tf(aa[0]["args"][1]) == 1
-            ret_acc = any(p[0] == 0 and rv["k"] == "use" and op_local(rv["op"]) is not None and cl.copy_root(op_local(rv["op"])) == 2 for b, i, p, rv, s in cl.assigns())
-            ok = ad == ["iter", "iter_mut", "zip"] and add_ok and ret_acc and upd["unconditional"]
-    chk.ob("C04.d", "Array::sum::closure/element-wise-add-of-the-whole-view", ok, cl.loc() if cl else f.loc(), "acc[k] += view[k] for every k (zip of acc.iter_mut() with view.iter()), then the accumulator is returned")
+            for b2, i2, p2, rv2, s2 in it.assigns():
+                if p2[1] and p2[1][-1] == ("deref",) and rv2["k"] == "binop" and rv2["op"] == "Add" and it.elem_path(p2) == (0,) and \
+                        {it.elem_path(rv2["l"]), it.elem_path(rv2["r"])} == {(0,), (1,)}:
+                    add_ok = True
+            aa = it.calls(N.ADD_ASSIGN)
+            if len(aa) == 1:
+                add_ok = it.elem_path(aa[0][1]["args"][0]) == (0,) and it.elem_path(aa[0][1]["args"][1]) == (1,)
+            uncond = it.runs_for_every_element() and not it.switches()
+            ok = acc_src and view_src and add_ok and uncond
+            why = "%s: accumulator.iter_mut()=%s zipped with view.iter()=%s, acc element += view element=%s, unconditional=%s" % (it.describe(), acc_src, view_src, add_ok, uncond)
+    chk.ob("C04.d", "Array::sum::closure/element-wise-add-of-the-whole-view", ok, inner.loc() if inner else f.loc(), "acc[k] += view[k] for every k (%s)" % why)
     g = chk.fn(A + "shape::removed_axis::RemovedAxis::<'a, sfs_core::array::shape::Shape>::into_shape")
     if g is not None:
         names = [callee_name(t["callee"]).split("::")[-1] for b, t in g.calls()]
@@ -649,111 +761,124 @@ def c05a(chk):
         chk.ob("C05.a", "into_spectrum/None->fill-for-every-cell", ok, h.loc(), "data = array.iter().map(|x| x.unwrap_or(fill)): cells that were folded keep their value, all None cells get the fill")
 
 
+def _pass_iteration(chk, f):
+    """the iteration of from_spectrum whose body looks up the total count of a cell"""
+    its = IT.iterations(chk.prog, f)
+    cands = [it for it in its if it.calls(A + "shape::Shape::index_sum_from_flat_unchecked")]
+    return (min(cands, key=lambda it: len(it.blocks)) if cands else None), its
+
+
+def _acc_plus_n_minus_1(acc):
+    """the new value is acc + (n - 1) with n the element, in plain, saturating or wrapping arithmetic"""
+    it = acc["it"]
+    fn = it.body
+    is_acc = acc["is_acc"]
+
+    def resolve(x):
+        """('binop'|'call', name, [operands])"""
+        for _ in range(8):
+            if isinstance(x, tuple):
+                if x[0] == "rv":
+                    rv = x[1]
+                    if rv["k"] == "binop":
+                        return ("binop", rv["op"], [rv["l"], rv["r"]])
+                    if rv["k"] == "use":
+                        x = rv["op"]
+                        continue
+                    return None
+                if x[0] == "call":
+                    return ("call", callee_name(x[1]["callee"]), x[1]["args"])
+            bo = an.binop_def(fn, x)
+            if bo is not None:
+                return ("binop", bo["op"], [bo["l"], bo["r"]])
+            l = op_local(x)
+            d = fn.single_def(fn.copy_root(l)) if l is not None else None
+            if d and d[0] == "call":
+                return ("call", callee_name(d[2]["callee"]), d[2]["args"])
+            return None
+        return None
+
+    def is_n_minus_1(op):
+        r = resolve(op)
+        if r is None:
+            return False
+        kind, nm, ops = r
+        sub = (kind == "binop" and nm.startswith("Sub")) or (kind == "call" and nm in ("core::num::<impl usize>::saturating_sub", "core::num::<impl usize>::wrapping_sub"))
+        return sub and it.elem_path(ops[0]) == () and const_val(ops[1]) == 1
+
+    r = resolve(acc["result"])
+    if r is None:
+        return False
+    kind, nm, ops = r
+    add = (kind == "binop" and nm.startswith("Add")) or (kind == "call" and nm in ("core::num::<impl usize>::saturating_add",))
+    return add and ((is_acc(ops[0]) and is_n_minus_1(ops[1])) or (is_acc(ops[1]) and is_n_minus_1(ops[0])))
+
+
 def c05c(chk):
     prog = chk.prog
     f = chk.fn(FOLDED + "from_spectrum")
     if f is None:
         return
-    chk.ob("C05.c", "from_spectrum/straight-line", not [b for b, t in f.switches()], f.loc(), "no branch in from_spectrum itself: no shortcut or special case bypasses the fold pass")
+    ps, its = _pass_iteration(chk, f)
     aggs = [b for b, i, p, rv, s in f.assigns() if rv["k"] == "aggregate" and rv.get("adt") == "sfs_core::spectrum::folded::Folded"]
     chk.ob("C05.c", "from_spectrum/one-construction", len(aggs) == 1, f.loc(), "Folded is constructed once, after the pass")
-    fe = an.calls(f, N.FOR_EACH)
+    # no shortcut: every branch of from_spectrum belongs to one of its loops (exhaustion test or body); the pass dominates the construction
+    loops = [it for it in its if it.kind == "loop" and it.parent is f]
+    stray = [f.loc(b) for b, t in f.switches() if not any(b == it.switch_bb or b in it.blocks for it in loops)]
+    dom = ps is not None and len(aggs) == 1 and (ps.parent is not f or f.dominates(ps.bb, aggs[0])) and ps.runs_for_every_element() and \
+        all(it.parent is f or it.parent is ps.parent for it in [ps])
+    if ps is not None and ps.parent is not f:
+        dom = False
+    chk.ob("C05.c", "from_spectrum/straight-line", not stray and dom, f.loc(), "no branch in from_spectrum outside its loops, the pass runs for every cell and precedes the construction: no shortcut or special case bypasses the fold pass (stray branches: %s)" % stray)
     ok = False
-    why = "for_each over zip(0..n, (0..n).rev()) not recognised"
-    if len(fe) == 1:
-        ad, info = adaptors_of(f, fe[0][1]["args"][0], fe[0][0])
-        rngs = [rv for b, i, p, rv, s in f.assigns() if rv["k"] == "aggregate" and rv.get("adt") == "core::ops::range::Range"]
+    why = "pass over zip(0..n, (0..n).rev()) not recognised"
+    if ps is not None:
+        ch = ps.chain()
         el = an.calls(f, SP + "elements")
         n_local = an.call_dest_local(el[0][1]) if len(el) == 1 else None
-        full = len(rngs) == 2 and all(const_val(r["ops"][0]) == 0 and op_local(r["ops"][1]) is not None and f.copy_root(op_local(r["ops"][1])) == n_local for r in rngs)
-        zips = [x for x in info["calls"] if callee_is(x[1]["callee"], N.ZIP)]
-        rev_second = False
-        if len(zips) == 1:
-            a1, i1 = adaptors_of(f, zips[0][1]["args"][1])
-            a0, i0 = adaptors_of(f, zips[0][1]["args"][0])
-            rev_second = "rev" in a1 and "rev" not in a0
-        ok = sorted(a for a in ad if a != "elements") == ["rev", "zip"] and full and rev_second
-        why = "adaptors %s, both ranges are 0..elements()=%s, second is reversed=%s" % (ad, full, rev_second)
+
+        def full_range(place):
+            if place is None or place[1]:
+                return False
+            d = f.single_def(f.copy_root(place[0]))
+            return bool(d and d[0] == "assign" and d[3]["k"] == "aggregate" and d[3].get("adt") == "core::ops::range::Range" and const_val(d[3]["ops"][0]) == 0
+                        and op_local(d[3]["ops"][1]) is not None and f.copy_root(op_local(d[3]["ops"][1])) == n_local)
+        zt = [x for x in ch if x[0] == "zip"]
+        names = IT.chain_names(ch)
+        if len(zt) == 1 and names == ["zip"] and len(zt[0][2]) == 1:
+            side = zt[0][2][0]
+            full = full_range(ch[-1][1]) and full_range(side[-1][1])
+            rev_second = IT.chain_names(side) == ["rev"]
+            ok = full and rev_second
+            why = "%s: both ranges are 0..elements()=%s, only the second is reversed=%s" % (ps.describe(), full, rev_second)
     chk.ob("C05.c", "from_spectrum/pass-over-(i, n-1-i)-for-every-i", ok, f.loc(), why)
-    # mid = T / 2 ; has_diagonal = T % 2 == 0 ; T from the fold over the shape
-    fo = an.calls(f, N.FOLD)
-    T = an.call_dest_local(fo[0][1]) if len(fo) == 1 else None
-    mid = None
-    diag = None
+    # mid = T / 2 ; has_diagonal = T % 2 == 0
+    T = mid = diag = None
     for b, i, p, rv, s in f.assigns():
-        if rv["k"] == "binop" and rv["op"] == "Div" and const_val(rv["r"]) == 2 and op_local(rv["l"]) is not None and f.copy_root(op_local(rv["l"])) == T:
-            mid = p[0]
+        if rv["k"] == "binop" and rv["op"] == "Div" and const_val(rv["r"]) == 2 and op_local(rv["l"]) is not None:
+            mid, T = p[0], f.copy_root(op_local(rv["l"]))
+    for b, i, p, rv, s in f.assigns():
         if rv["k"] == "binop" and rv["op"] == "Eq" and const_val(rv["r"]) == 0:
-            l = op_local(rv["l"])
-            d = f.single_def(f.copy_root(l)) if l is not None else None
-            if d and d[0] == "assign" and d[3]["k"] == "binop" and d[3]["op"] == "Rem" and const_val(d[3]["r"]) == 2 and f.copy_root(op_local(d[3]["l"])) == T:
+            bo = an.binop_def(f, rv["l"])
+            if bo is not None and bo["op"] == "Rem" and const_val(bo["r"]) == 2 and op_local(bo["l"]) is not None and f.copy_root(op_local(bo["l"])) == T:
                 diag = p[0]
     chk.ob("C05.c", "from_spectrum/mid=T/2,has_diagonal=T%2==0", T is not None and mid is not None and diag is not None, f.loc(), "the fold line is at half the maximum total count; a diagonal exists iff that total is even")
-    # T = sum (len - 1): fold(0, |sum, n| sum + (n - 1)) over the whole shape
+    # T = sum (len - 1) over the whole shape, starting from 0
     ok = False
-    if len(fo) == 1:
-        ad, info = adaptors_of(f, fo[0][1]["args"][0], fo[0][0])
-        cl = closure_of_arg(prog, f, fo[0][1], 2)
-        init0 = const_val(fo[0][1]["args"][1]) == 0
-        shape_ok = any(callee_is(x[1]["callee"], SP + "shape") for x in info["calls"]) and not [a for a in ad if a not in ("shape", "deref", "iter")]
-        form = False
-        if cl is not None:
-            chk.fns_analysed.add(cl.path)
-            r = _acc_plus_n_minus_1(cl)
-            form = r
-        ok = init0 and shape_ok and form
-    chk.ob("C05.c", "from_spectrum/T=sum(len-1)-over-all-axes", ok, f.loc(), "the maximum total count adds (length - 1) for every axis, starting from 0")
-    # captures of the pass closure: spectrum, dst, &mid, &has_diagonal
-    if len(fe) == 1:
-        cl = closure_of_arg(prog, f, fe[0][1], 1)
-        caps = an.closure_captures(f, cl.path) if cl is not None else None
-        ok = bool(caps) and mid is not None and diag is not None and [c[0] if c else None for c in caps][2:4] == [mid, diag]
-        chk.ob("C05.c", "from_spectrum/pass-sees-mid-and-has_diagonal", ok, f.loc(), "the per-cell decision uses the mid count and the diagonal flag computed above")
-
-
-def _acc_plus_n_minus_1(cl):
-    """closure |acc, &n| acc + (n - 1) in plain or saturating arithmetic"""
-    # find the final value
-    d0 = cl.defs.get(0, [])
-    if len(d0) != 1:
-        return False
-    def is_acc(op):
-        l = op_local(op)
-        return l is not None and cl.copy_root(l) == 2
-    def is_n_minus_1(op):
-        l = op_local(op)
-        d = cl.single_def(cl.copy_root(l)) if l is not None else None
-        if d is None:
-            return False
-        if d[0] == "call" and (d[2]["callee"].get("path") or "") in ("core::num::<impl usize>::saturating_sub", "core::num::<impl usize>::wrapping_sub"):
-            a = d[2]["args"]
-            sl, info = cl.slice_locals(a[0], through_calls=False)
-            return 3 in sl and const_val(a[1]) == 1
-        if d[0] == "assign":
-            rv = d[3]
-            if rv["k"] == "use":
-                p = op_place(rv["op"])
-                if p and p[1] and p[1][0][0] == "field":
-                    dd = cl.single_def(p[0])
-                    rv = dd[3] if dd and dd[0] == "assign" else rv
-            if rv["k"] == "binop" and rv["op"].startswith("Sub"):
-                sl, info = cl.slice_locals(rv["l"], through_calls=False)
-                return 3 in sl and const_val(rv["r"]) == 1
-        return False
-    d = d0[0]
-    if d[0] == "call" and (d[2]["callee"].get("path") or "") in ("core::num::<impl usize>::saturating_add",):
-        a = d[2]["args"]
-        return (is_acc(a[0]) and is_n_minus_1(a[1])) or (is_acc(a[1]) and is_n_minus_1(a[0]))
-    if d[0] == "assign":
-        rv = d[3]
-        if rv["k"] == "use":
-            p = op_place(rv["op"])
-            if p and p[1] and p[1][0][0] == "field":
-                dd = cl.single_def(p[0])
-                rv = dd[3] if dd and dd[0] == "assign" else rv
-        if rv["k"] == "binop" and rv["op"].startswith("Add"):
-            return (is_acc(rv["l"]) and is_n_minus_1(rv["r"])) or (is_acc(rv["r"]) and is_n_minus_1(rv["l"]))
-    return False
+    why = "accumulation of T not recognised"
+    acc = IT.accumulation(prog, f, its, T) if T is not None else None
+    if acc is not None:
+        it = acc["it"]
+        chk.fns_analysed.add(it.body.path)
+        ch = it.chain()
+        init0 = const_val(acc["init"]) == 0
+        shape_ok = IT.chain_get(ch, "shape") is not None and not [n for n in IT.chain_names(ch) if n not in ("shape", "iter")]
+        form = _acc_plus_n_minus_1(acc)
+        every = it.runs_for_every_element() and not it.switches()
+        ok = init0 and shape_ok and form and every
+        why = "%s: starts at 0=%s, over shape().iter()=%s, new value = acc + (n - 1)=%s, every axis=%s" % (it.describe(), init0, shape_ok, form, every)
+    chk.ob("C05.c", "from_spectrum/T=sum(len-1)-over-all-axes", ok, f.loc(), "the maximum total count adds (length - 1) for every axis, starting from 0 (%s)" % why)
+    chk.c05 = {"mid": mid, "diag": diag, "pass": ps}
 
 
 def c05d(chk):
@@ -761,46 +886,45 @@ def c05d(chk):
     f = chk.fn(FOLDED + "from_spectrum")
     if f is None:
         return
-    fe = an.calls(f, N.FOR_EACH)
-    cl = closure_of_arg(prog, f, fe[0][1], 1) if len(fe) == 1 else None
-    if cl is None:
-        chk.fail("C05.d", "from_spectrum::pass/closure", f.loc(), "pass closure not found")
+    ctx = getattr(chk, "c05", None) or {}
+    ps = ctx.get("pass")
+    if ps is None:
+        chk.fail("C05.d", "from_spectrum::pass/closure", f.loc(), "pass (closure or loop looking up index_sum_from_flat_unchecked) not found")
         return
+    cl = ps.body
     chk.fns_analysed.add(cl.path)
-    caps = an.closure_captures(f, cl.path) or []
-    # locals: i = _2.0, rev = _2.1 ; src = as_slice(spectrum.array) ; dst = as_mut_slice(capture 1)
-    def param_field(l):
-        l = cl.copy_root(l)
-        d = cl.single_def(l)
-        if d and d[0] == "assign" and d[3]["k"] == "use":
-            p = op_place(d[3]["op"])
-            if p and p[0] == 2 and len(p[1]) == 1 and p[1][0][0] == "field":
-                return p[1][0][1]
+    mid, diag = ctx.get("mid"), ctx.get("diag")
+
+    def slice_kind(l):
+        """'src' / 'dst' for a local holding spectrum.array.as_slice() / <new array>.as_mut_slice(), in the body or captured from outside"""
+        for fn, root in ((cl, cl.copy_root(l)), (f, ps.outer_root((l, ())))):
+            if root is None:
+                continue
+            d = fn.single_def(root)
+            if d and d[0] == "call":
+                if callee_is(d[2]["callee"], A + "Array::<T>::as_slice"):
+                    return "src"
+                if callee_is(d[2]["callee"], A + "Array::<T>::as_mut_slice"):
+                    return "dst"
         return None
-    src = [an.call_dest_local(t) for b, t in cl.calls() if callee_is(t["callee"], A + "Array::<T>::as_slice")]
-    dst = [an.call_dest_local(t) for b, t in cl.calls() if callee_is(t["callee"], A + "Array::<T>::as_mut_slice")]
-    cmpc = [(b, t) for b, t in cl.calls() if callee_is(t["callee"], "core::cmp::Ord::cmp")]
-    isum = an.calls(cl, A + "shape::Shape::index_sum_from_flat_unchecked")
-    if not (len(src) == len(dst) == len(cmpc) == len(isum) == 1):
-        chk.fail("C05.d", "from_spectrum::pass/shape", cl.loc(), "expected one as_slice, as_mut_slice, Ord::cmp and index_sum_from_flat_unchecked")
+
+    def indexed(place):
+        """(kind, element part) for a place `(*slice)[idx]`"""
+        l, proj = place
+        if len(proj) == 2 and proj[0] == ("deref",) and proj[1][0] == "index":
+            k = slice_kind(l)
+            ep = ps.elem_path({"k": "copy", "place": {"l": proj[1][1], "p": []}})
+            return k, ep
+        return None, None
+    cmpc = ps.calls("core::cmp::Ord::cmp")
+    isum = ps.calls(A + "shape::Shape::index_sum_from_flat_unchecked")
+    if not (len(cmpc) == len(isum) == 1):
+        chk.fail("C05.d", "from_spectrum::pass/shape", ps.loc(), "expected one Ord::cmp and one index_sum_from_flat_unchecked in the pass")
         return
-    # cmp(count, mid): count = index_sum(i)
     a0 = an.arg_pointee(cl, cmpc[0][1], 0)
-    a1l = op_local(cmpc[0][1]["args"][1])
-    sl1, info1 = cl.slice_locals(cmpc[0][1]["args"][1], through_calls=False)
-    def cap_index(sl):
-        for l in sl:
-            for d in cl.defs.get(l, []):
-                if d[0] == "assign" and d[3]["k"] == "use":
-                    p = op_place(d[3]["op"])
-                    if p and p[0] == 1:
-                        fs = [e[1] for e in p[1] if e[0] == "field"]
-                        if fs:
-                            return fs[0]
-        return None
-    count_ok = a0 is not None and a0[0] == an.call_dest_local(isum[0][1]) and param_field(op_local(isum[0][1]["args"][1])) == 0
-    mid_ok = cap_index(sl1) == 2
-    chk.ob("C05.d", "pass/decision=cmp(index_sum(i), mid)", count_ok and mid_ok, cl.loc(), "the total allele count of cell i is compared with the mid count (count=%s, mid capture=%s)" % (count_ok, mid_ok))
+    count_ok = a0 is not None and a0[0] == an.call_dest_local(isum[0][1]) and ps.elem_path(isum[0][1]["args"][1]) == (0,)
+    mid_ok = mid is not None and ps.outer_root(cmpc[0][1]["args"][1]) == mid
+    chk.ob("C05.d", "pass/decision=cmp(index_sum(i), mid)", count_ok and mid_ok, ps.loc(), "the total allele count of cell i is compared with the mid count (count=%s, mid=%s)" % (count_ok, mid_ok))
 
     # expression summariser
     def expr(op, depth=0):
@@ -813,10 +937,10 @@ def c05d(chk):
         if p is None:
             return ("?",)
         l, proj = p
-        if len(proj) == 2 and proj[0] == ("deref",) and proj[1][0] == "index" and l in src:
-            k = param_field(proj[1][1])
-            return ("src", {0: "i", 1: "mirror"}.get(k, "?"))
         if proj:
+            k, ep = indexed(p)
+            if k == "src":
+                return ("src", {(0,): "i", (1,): "mirror"}.get(ep, "?"))
             return ("?",)
         d = cl.single_def(l)
         if d and d[0] == "assign":
@@ -837,53 +961,58 @@ def c05d(chk):
         return e
     SUM = norm(("Some", ("Add", ("src", "i"), ("src", "mirror"))))
     AVG = norm(("Some", ("Add", ("Mul", ("const", "0.5"), ("src", "i")), ("Mul", ("const", "0.5"), ("src", "mirror")))))
-    # stores
     stores = []
-    for b, i, p, rv, s in cl.assigns():
-        if p[0] in dst and len(p[1]) == 2 and p[1][0] == ("deref",) and p[1][1][0] == "index":
-            at = param_field(p[1][1][1])
+    for b, i, p, rv, s in ps.assigns():
+        k, ep = indexed(p)
+        if k == "dst":
             val = norm(expr(rv["op"])) if rv["k"] == "use" else ("?",)
-            stores.append((b, at, val))
-    chk.ob("C05.d", "pass/stores-at-i", len(stores) >= 3 and all(at == 0 for b, at, v in stores), cl.loc(), "every store goes to dst[i] (targets: %s)" % [at for b, at, v in stores])
+            stores.append((b, ep, val))
+    chk.ob("C05.d", "pass/stores-at-i", len(stores) >= 3 and all(at == (0,) for b, at, v in stores), ps.loc(), "every store goes to dst[i] (targets: %s)" % [at for b, at, v in stores])
+    # src is the argument's array, dst the array that ends up in the result
     # decision switches
-    osw = None
-    dsw = None
-    for sb, st in cl.switches():
+    osw = dsw = None
+    for sb, st in ps.switches():
         s = an.switch_subject(cl, sb)
         if s["kind"] == "discr" and s.get("adt") == "core::cmp::Ordering":
             osw = (sb, st, s)
         elif s["kind"] == "value":
-            sl, info = cl.slice_locals(st["discr"], through_calls=False)
-            if cap_index(sl) == 3:
+            roots = set()
+            pl = op_place(st["discr"])
+            cands = [pl] if pl is not None else []
+            # the subject may be a tuple field `(_t).1` assembled from a copy of the flag
+            if pl is not None and pl[1] and pl[1][0][0] == "field":
+                d = cl.single_def(pl[0])
+                if d and d[0] == "assign" and d[3]["k"] == "aggregate" and d[3].get("akind") == "tuple":
+                    o = d[3]["ops"][pl[1][0][1]]
+                    cands = [op_place(o)] if op_place(o) is not None else []
+            for c_ in cands:
+                r = ps.outer_root(c_)
+                if r is not None:
+                    roots.add(r)
+            if diag is not None and diag in roots:
                 dsw = (sb, st)
     if osw is None or dsw is None:
-        chk.fail("C05.d", "pass/decision-switches", cl.loc(), "switches on the Ordering and on has_diagonal not recognised")
+        chk.fail("C05.d", "pass/decision-switches", ps.loc(), "switches on the Ordering and on has_diagonal not recognised")
         return
     sb, st, s = osw
     vmap = {nm: an.edge_target(st, val) for val, nm in s["variants"].items()}
     db, dt = dsw
     d_true, d_false = dt["otherwise"], an.edge_target(dt, 0)
 
-    def value_on(edges):
-        """the value stored on the path satisfying all (switch, target) edges; None if not exactly one store"""
-        cands = [v for b, at, v in stores if all(an.dominated_by_edge(cl, e0, e1, b) or _reach_only_via(cl, e0, e1, b) for e0, e1 in edges)]
-        return cands
-    table = {
-        "Less": [v for b, at, v in stores if _on_edge(cl, sb, vmap["Less"], b) and not _on_edge(cl, db, d_true, b) or (_on_edge(cl, sb, vmap["Less"], b))],
-    }
-    # evaluate each case by path: simulate the two switches
-    def store_for(order, diag):
+    def store_for(order, dg):
         cur = vmap[order]
         seen = 0
-        while seen < 20:
+        while seen < 40:
             seen += 1
+            if cur not in ps.blocks:
+                return None
             hit = [v for b, at, v in stores if b == cur]
             if hit:
                 return hit[0]
             t = cl.term(cur)
             if t["k"] == "switch":
                 if cur == db:
-                    cur = d_true if diag else d_false
+                    cur = d_true if dg else d_false
                 else:
                     return None
             elif t["k"] in ("goto", "assert", "call", "drop") and t.get("target") is not None:
@@ -894,11 +1023,10 @@ def c05d(chk):
     want = {("Less", True): SUM, ("Less", False): SUM, ("Equal", False): SUM, ("Equal", True): AVG, ("Greater", True): ("None",), ("Greater", False): ("None",)}
     got = {k: store_for(*k) for k in want}
     for k in sorted(want):
-        chk.ob("C05.d", "pass/table(%s,diag=%s)" % k, got[k] == want[k], cl.loc(),
+        chk.ob("C05.d", "pass/table(%s,diag=%s)" % k, got[k] == want[k], ps.loc(),
                "cell below the fold line -> src[i] + src[mirror]; on an existing diagonal -> 0.5 src[i] + 0.5 src[mirror]; above -> None (found %s)" % (got[k],))
-    # exactly one store on every path: stores are in distinct arms and the closure has no other switch
-    others = [b for b, t in cl.switches() if b not in (sb, db)]
-    chk.ob("C05.d", "pass/no-other-branch", not others, cl.loc(), "the only branches are the two of the decision table (no value-dependent shortcut such as skipping zero pairs): extra at %s" % [cl.loc(b) for b in others])
+    others = [b for b, t in ps.switches() if b not in (sb, db)]
+    chk.ob("C05.d", "pass/no-other-branch", not others, ps.loc(), "the only branches are the two of the decision table (no value-dependent shortcut such as skipping zero pairs): extra at %s" % [cl.loc(b) for b in others])
 
 
 def _on_edge(f, sb, tgt, b):
